@@ -75,7 +75,7 @@ func (f *InputField) Resolve(field *Field, args map[string]interface{}) (result 
 	case typeStr:
 		result = f.Type
 	case defaultValueStr:
-		result = f.Default
+		result = defaultValueText(f.Default)
 	}
 	return
 }
